@@ -4,6 +4,7 @@ payload = {"scratch": dir, "cases": [case, ...]}
   case = {"op": "tree", "tree": T, "twin": bool}            -> len / validate / export / absolute addresses
        | {"op": "fmt", "tree": T, "formats": [...], "exec": int|None}   -> save -> load through real files
        | {"op": "bin", "content": hex}                      -> BIN save -> load of one flat image
+       | {"op": "cfg", "size", "al", "pat", "regions": [...]}  -> BinaryImage.load_from_config (binary-image merge)
   errors are reported as "!e1" (SPSDKError family) / "!e2:<class>" (other exception) / "!e3" (hang)
   T = {"size": int, "al": int, "off": int, "bin": hex, "pat": None | text, "kids": [[append(0/1), T], ...]}
 """
@@ -136,6 +137,38 @@ def handler(payload):
             except OSError:
                 pass
             out.append(res)
+        elif op == "cfg":
+            # the engine of `nxpimage utils binary-image merge`: BinaryImage.load_from_config
+            regions = []
+            for k, rg in enumerate(case["regions"]):
+                if rg["kind"] == "file":
+                    fn = f"c{n}_r{k}.bin"
+                    with open(os.path.join(scratch, fn), "wb") as f:
+                        f.write(bytes.fromhex(rg["content"]))
+                    d = {"path": fn}
+                    if rg["offset"] is not None:
+                        d["offset"] = rg["offset"]
+                    regions.append({"binary_file": d})
+                else:
+                    d = {"size": rg["size"], "pattern": rg["pattern"]}
+                    if rg["offset"] is not None:
+                        d["offset"] = rg["offset"]
+                    regions.append({"binary_block": d})
+            cfg = {"name": "merged", "size": case["size"], "alignment": case["al"], "regions": regions}
+            if case["pat"] is not None:
+                cfg["pattern"] = case["pat"]
+            r = guarded(lambda: BinaryImage.load_from_config(cfg, search_paths=[scratch]))
+            if r[0] != "ok":
+                out.append({"build": outcome(r)})
+            else:
+                res = {"build": "ok"}
+                res.update(observe(r[1]))
+                out.append(res)
+            for k, rg in enumerate(case["regions"]):
+                try:
+                    os.remove(os.path.join(scratch, f"c{n}_r{k}.bin"))
+                except OSError:
+                    pass
         else:
             raise SystemExit("unknown op " + op)
     return {"results": out}
